@@ -534,3 +534,22 @@ MUTANTS += [
     {"name": "base-match-tuple-assignment-one-side-raw", "expect": "R17.4", "edits": [(A, _BASE_VM, '        accepted, offered = item.lower(), value\n        return item == "*" or accepted == offered')]},
     {"name": "language-match-mismatch-test-ignores-wildcard", "expect": "R17.4", "edits": [(A, _LANG_VM, '        if _normalize_lang(value) != _normalize_lang(item):\n            return False\n        return True')]},
 ]
+
+
+# ---- round 3: the specificity key must order range shapes by inclusion of what they match (type/*;param below type/subtype) ----
+_SPLIT = "_mime_split_re.split(value)"
+TWINS += [
+    {"name": "mime-specificity-int-flags-from-list-comprehension", "edits": [(A, _MIME_SPEC, '        return tuple([int(x != "*") for x in ' + _SPLIT + '])')]},
+    {"name": "mime-specificity-conditional-expression-flags", "edits": [(A, _MIME_SPEC, '        return tuple(False if x == "*" else True for x in ' + _SPLIT + ')')]},
+    {"name": "mime-specificity-map-lambda", "edits": [(A, _MIME_SPEC, '        return tuple(map(lambda part: part != "*", ' + _SPLIT + '))')]},
+    {"name": "mime-specificity-type-subtype-then-parameters", "edits": [(A, _MIME_SPEC, '        parts = ' + _SPLIT + '\n        head = (parts[0] != "*", parts[1] != "*")\n        return head + tuple(p != "*" for p in parts[2:])')]},
+    {"name": "mime-specificity-on-normalised-parts", "edits": [(A, _MIME_SPEC, '        return tuple(x != "*" for x in _normalize_mime(value))')]},
+]
+MUTANTS += [
+    {"name": "mime-specificity-counts-concrete-parts", "expect": "R17.3", "edits": [(A, _MIME_SPEC, '        return (len([x for x in ' + _SPLIT + ' if x != "*"]),)')]},
+    {"name": "mime-specificity-length-before-flags", "expect": "R17.3", "edits": [(A, _MIME_SPEC, '        parts = ' + _SPLIT + '\n        return (len(parts),) + tuple(x != "*" for x in parts)')]},
+    {"name": "mime-specificity-flags-read-from-the-end", "expect": "R17.3", "edits": [(A, _MIME_SPEC, '        return tuple(x != "*" for x in reversed(' + _SPLIT + '))')]},
+    {"name": "mime-specificity-flags-sorted", "expect": "R17.3", "edits": [(A, _MIME_SPEC, '        return tuple(sorted((x != "*" for x in ' + _SPLIT + '), reverse=True))')]},
+    {"name": "mime-specificity-positional-weights-summed", "expect": "R17.3", "edits": [(A, _MIME_SPEC, '        return (sum(2**i for i, x in enumerate(' + _SPLIT + ') if x != "*"),)')]},
+    {"name": "mime-specificity-loop-keeps-only-concrete-parts", "expect": "R17.3", "edits": [(A, _MIME_SPEC, '        out = []\n        for part in ' + _SPLIT + ':\n            if part != "*":\n                out.append(True)\n        return tuple(out)')]},
+]
